@@ -9,7 +9,9 @@ import (
 	"encoding/json"
 	"fmt"
 	"hash/fnv"
+	"io"
 	"os"
+	"path/filepath"
 	"sort"
 	"strings"
 	"sync"
@@ -19,16 +21,16 @@ const maxHashes = 300000
 const maxSamples = 6
 
 type propData struct {
-	Evaluations int64            `json:"evaluations"`
-	Nontrivial  int64            `json:"nontrivial_total"`
-	Hashes      map[uint64]bool  `json:"-"`
-	HashList    []uint64         `json:"hashes"`
-	Labels      map[string]int64 `json:"labels"`
-	Excluded    map[string]int64 `json:"excluded"`
-	Samples     []any            `json:"samples"`
-	sampleKeys  []uint64
-	Notes       map[string]string `json:"notes"`
-	KnownFindings []string        `json:"known_findings"`
+	Evaluations   int64            `json:"evaluations"`
+	Nontrivial    int64            `json:"nontrivial_total"`
+	Hashes        map[uint64]bool  `json:"-"`
+	HashList      []uint64         `json:"hashes"`
+	Labels        map[string]int64 `json:"labels"`
+	Excluded      map[string]int64 `json:"excluded"`
+	Samples       []any            `json:"samples"`
+	sampleKeys    []uint64
+	Notes         map[string]string `json:"notes"`
+	KnownFindings []string          `json:"known_findings"`
 }
 
 var (
@@ -159,4 +161,41 @@ func Known(sig string) bool {
 		}
 	}
 	return false
+}
+
+// WarnLog is where the engines send oxia's own log records of level WARN and above: a file in the run's scratch
+// directory that is kept short. Some failure paths of the code under test end the process with os.Exit(1) right
+// after logging why (Pebble's logger on a fatal storage error, for one); the driver prints the tail of this file
+// when a worker ends that way.
+func WarnLog() io.Writer {
+	dir := os.Getenv("VERIF_TMP")
+	if dir == "" {
+		return io.Discard
+	}
+	return &warnLog{path: filepath.Join(dir, "oxia-warnings.log")}
+}
+
+type warnLog struct {
+	mu   sync.Mutex
+	path string
+	f    *os.File
+	n    int
+}
+
+func (w *warnLog) Write(p []byte) (int, error) {
+	w.mu.Lock()
+	defer w.mu.Unlock()
+	if w.f == nil || w.n > 1<<20 {
+		if w.f != nil {
+			_ = w.f.Close()
+		}
+		f, err := os.Create(w.path)
+		if err != nil {
+			return len(p), nil
+		}
+		w.f, w.n = f, 0
+	}
+	n, _ := w.f.Write(p)
+	w.n += n
+	return len(p), nil
 }
